@@ -203,3 +203,19 @@ def fri_programs():
         push = " ".join("push." + ".".join(str(x) for x in rev[i:i + 8]) for i in range(0, len(rev), 8))
         out.append({"src": "begin\n  %s fri_ext2fold4 %s\nend\n" % (push, "drop " * 16), "kernel": None, "inputs": [], "adv": [], "class": "fri-seg%d" % seg})
     return out
+
+
+def range_gap_programs(thorough=False):
+    """executions whose range-checked 16-bit values have prescribed gaps: the range-checker table bridges a gap with steps
+    of 0 or a power of three up to 3^7 = 2187 (range.md), so gaps of exactly k * 2187, of 2187 +- 1 and of other powers of
+    three are the boundary cases of the table's row count (u32split range-checks the 16-bit limbs of its operand)"""
+    gaps = [2187, 2 * 2187, 3 * 2187, 2186, 2188, 729, 6560, 6562, 29 * 2187] + ([k * 2187 for k in (4, 5, 9, 10, 27)] + [243, 81, 27, 9, 3, 1, 2] if thorough else [])
+    out = []
+    for g in gaps:
+        for a in (0, 100):
+            b = a + g
+            if b >= 65535:
+                continue
+            body = ("push.%d u32split drop drop " % a if a else "") + "push.%d u32split drop drop" % b
+            out.append({"src": "begin\n  %s\nend\n" % body, "kernel": None, "inputs": [], "adv": [], "class": "range-gap-%d-from-%d" % (g, a)})
+    return out
